@@ -1,27 +1,252 @@
 // C07 — minority failures are tolerated; every failing node is reported exactly once.
+//
+// Two generated case shapes: (Q) one scripted call with per-node failure kinds
+// and strike positions (qeng), and (P) a concurrent program of calls that all
+// wait for held handlers on "victim" servers which are then stopped (peng):
+// every waiting call must be completed with exactly one error per victim.
 package c07
 
 import (
+	"fmt"
+	"regexp"
+	"sort"
+	"strconv"
+	"strings"
 	"testing"
 
 	"pgregory.net/rapid"
 
+	"verif/peng"
 	"verif/qeng"
+	"verif/scen"
 	"verif/vt"
 )
 
-func gen(t *rapid.T) qeng.Case {
-	c := qeng.Gen(t, qeng.Bias{Kinds: qeng.QCKinds(), MaxN: 7, AllowDown: true, AllowStop: true, AllowSilent: false, AllowCtx: false, AllCodes: true})
-	return c
+type Case struct {
+	Q *qeng.Case `json:"q,omitempty"`
+	P *peng.Case `json:"p,omitempty"`
+	// Victims are the servers (program shape) whose handlers are held and which are stopped.
+	Victims []int `json:"victims,omitempty"`
 }
 
-func run(c qeng.Case) vt.Verdict {
-	r := qeng.Run(c)
+var progKinds = []string{"RPC", "QC", "QCPerNode", "QCPerNode", "QCCombo", "QCCustom", "Async", "AsyncPerNode", "AsyncCombo", "Corr", "CorrPerNode", "CorrCombo"}
+
+func genProgram(t *rapid.T) Case {
+	n := rapid.IntRange(2, 4).Draw(t, "n")
+	c := peng.Case{N: n, EndCheck: true}
+	c.Mgrs = []scen.MgrOpts{{SendBuffer: rapid.SampledFrom([]uint{0, 0, 1, 4}).Draw(t, "sendBuffer"), DialTimeoutMs: 30, BackoffMs: 20,
+		ListIDs: rapid.IntRange(0, 3).Draw(t, "listIDs") == 0}}
+	ncfg := rapid.IntRange(1, 3).Draw(t, "ncfg")
+	for i := 0; i < ncfg; i++ {
+		size := rapid.IntRange(1, n).Draw(t, fmt.Sprintf("cfgSize%d", i))
+		perm := rapid.Permutation(seqInts(n)).Draw(t, fmt.Sprintf("cfgPerm%d", i))
+		cfg := append([]int(nil), perm[:size]...)
+		sort.Ints(cfg)
+		c.Configs = append(c.Configs, cfg)
+	}
+	c.Threads = rapid.IntRange(2, 5).Draw(t, "threads")
+	// victims: a non-empty subset of the servers
+	nv := rapid.IntRange(1, n).Draw(t, "nvictims")
+	vperm := rapid.Permutation(seqInts(n)).Draw(t, "victimPerm")
+	victims := append([]int(nil), vperm[:nv]...)
+	sort.Ints(victims)
+	isVictim := map[int]bool{}
+	for _, v := range victims {
+		isVictim[v] = true
+	}
+	nops := rapid.IntRange(3, 14).Draw(t, "nops")
+	stopAt := rapid.IntRange(1, nops).Draw(t, "stopAt")
+	for i := 0; i < nops; i++ {
+		if i == stopAt {
+			c.Ops = append(c.Ops, peng.Op{Kind: "sleep", Thread: 0, Us: rapid.SampledFrom([]int{200, 1000, 4000}).Draw(t, "stopAfterUs")})
+			for _, v := range victims {
+				c.Ops = append(c.Ops, peng.Op{Kind: "stop", Thread: 0, Call: scen.CallSpec{Node: v}})
+			}
+		}
+		kind := rapid.SampledFrom(progKinds).Draw(t, fmt.Sprintf("kind%d", i))
+		op := peng.Op{Kind: "call", Thread: 1 + rapid.IntRange(0, c.Threads-2).Draw(t, fmt.Sprintf("thr%d", i)), Behav: map[int]scen.Behaviour{}}
+		spec := scen.CallSpec{Kind: kind, Ctx: "background"}
+		spec.Config = rapid.IntRange(0, len(c.Configs)).Draw(t, fmt.Sprintf("cfg%d", i))
+		servers := seqInts(n)
+		if spec.Config > 0 {
+			servers = c.Configs[spec.Config-1]
+		}
+		if kind == "RPC" {
+			spec.Node = rapid.IntRange(0, n-1).Draw(t, fmt.Sprintf("node%d", i))
+			servers = []int{spec.Node}
+		}
+		targets := 0
+		if scen.HasPerNode(kind) {
+			spec.PerNode = map[int]string{}
+			for _, s := range servers {
+				var parts []string
+				if len(servers) > 1 && rapid.IntRange(0, 4).Draw(t, fmt.Sprintf("skip%d_%d", i, s)) == 0 {
+					spec.PerNode[s] = "skip"
+					continue
+				}
+				if rapid.Bool().Draw(t, fmt.Sprintf("tag%d_%d", i, s)) {
+					parts = append(parts, fmt.Sprintf("tag:%d", s+1))
+				}
+				// time spent in the per-node function: the call has its message id but has not handed over its requests
+				if rapid.IntRange(0, 2).Draw(t, fmt.Sprintf("delay%d_%d", i, s)) == 0 {
+					parts = append(parts, fmt.Sprintf("delay:%d", rapid.SampledFrom([]int{100, 500, 2000}).Draw(t, fmt.Sprintf("delayUs%d_%d", i, s))))
+				}
+				if len(parts) > 0 {
+					spec.PerNode[s] = strings.Join(parts, ",")
+				}
+				targets++
+			}
+			if targets == 0 {
+				delete(spec.PerNode, servers[0])
+				targets = 1
+			}
+		} else {
+			targets = len(servers)
+		}
+		// the call needs every targeted node: it waits for the victims
+		spec.Script = scen.QScript{Kind: "threshold", Q: targets}
+		op.Call = spec
+		for _, s := range servers {
+			if isVictim[s] {
+				op.Behav[s] = scen.Behaviour{Gate: true, Release: "early"}
+			} else if rapid.IntRange(0, 3).Draw(t, fmt.Sprintf("lat%d_%d", i, s)) == 0 {
+				op.Behav[s] = scen.Behaviour{SleepUs: rapid.IntRange(1, 1500).Draw(t, fmt.Sprintf("sleep%d_%d", i, s))}
+			}
+		}
+		if scen.IsAsync(kind) || scen.IsCorr(kind) {
+			op.Await = rapid.Bool().Draw(t, fmt.Sprintf("await%d", i))
+		}
+		c.Ops = append(c.Ops, op)
+	}
+	if stopAt >= nops {
+		c.Ops = append(c.Ops, peng.Op{Kind: "sleep", Thread: 0, Us: 1000})
+		for _, v := range victims {
+			c.Ops = append(c.Ops, peng.Op{Kind: "stop", Thread: 0, Call: scen.CallSpec{Node: v}})
+		}
+	}
+	return Case{P: &c, Victims: victims}
+}
+
+func seqInts(n int) []int {
+	s := make([]int, n)
+	for i := range s {
+		s[i] = i
+	}
+	return s
+}
+
+func gen(t *rapid.T) Case {
+	if rapid.IntRange(0, 3).Draw(t, "shape") == 0 {
+		return genProgram(t)
+	}
+	c := qeng.Gen(t, qeng.Bias{Kinds: qeng.QCKinds(), MaxN: 7, AllowDown: true, AllowStop: true, AllowSilent: false, AllowCtx: false, AllCodes: true})
+	return Case{Q: &c}
+}
+
+var nodeLineRe = regexp.MustCompile(`(?m)^\tnode (\d+): (.*)$`)
+
+func runProgram(c Case) vt.Verdict {
+	r := peng.Run(*c.P, peng.Hooks{})
 	if r.SetupErr != "" {
 		return vt.Verdict{OK: true, Inconclusive: true, Msg: r.SetupErr, Classes: []string{"setup-error"}}
 	}
-	classes, _ := qeng.Classes(c, r)
-	v, extra, nontrivial := qeng.CheckC07(c, r)
+	classes := []string{"shape=program", fmt.Sprintf("victims=%d", len(c.Victims))}
+	isVictim := map[int]bool{}
+	for _, v := range c.Victims {
+		isVictim[v] = true
+	}
+	if len(r.HungAfterClose) > 0 {
+		h := r.HungAfterClose[0]
+		sig := h
+		if i := strings.Index(h, ": "); i >= 0 {
+			sig = h[i+2:]
+		}
+		kind := strings.TrimSuffix(strings.Fields(h)[2], ":")
+		return vt.Verdict{OK: false, Key: "C07/program/left-waiting/" + strings.ToLower(kind) + "/" + sig, History: r.Events, Classes: classes,
+			Msg: fmt.Sprintf("%d call(s) were still waiting 2x%v after the servers whose answers they needed (%v) had been stopped: %s", len(r.HungAfterClose), scen.B, c.Victims, strings.Join(r.HungAfterClose, "; "))}
+	}
+	// error accounting of the calls that ended Incomplete
+	stopT := -1
+	for _, e := range r.Events {
+		if e.Kind == "stop" && stopT < 0 {
+			stopT = e.T
+		}
+	}
+	inflightAtStop := 0
+	issueT := map[uint64]int{}
+	for _, e := range r.Events {
+		if e.Kind == "issue" {
+			issueT[e.Token] = e.T
+		}
+	}
+	for _, ci := range r.Calls {
+		var ret *scen.Event
+		for i := range r.Events {
+			if r.Events[i].Kind == "return" && r.Events[i].Token == ci.Token {
+				ret = &r.Events[i]
+				break
+			}
+		}
+		if ret == nil {
+			continue
+		}
+		if it, ok := issueT[ci.Token]; ok && it < stopT && ret.T > stopT {
+			inflightAtStop++
+		}
+		if ci.Kind == "RPC" || !ret.IsInc {
+			if ci.Kind != "RPC" && ret.Outcome == "value" {
+				for _, s := range ci.Targets {
+					if isVictim[s] {
+						return vt.Verdict{OK: false, Key: "C07/program/success-despite-failed-node", History: r.Events, Classes: classes,
+							Msg: fmt.Sprintf("call %d (%s) needed all its %d nodes but succeeded although server %d never answered", ci.Idx, ci.Kind, len(ci.Targets), s)}
+					}
+				}
+			}
+			continue
+		}
+		counts := map[int]int{}
+		for _, m := range nodeLineRe.FindAllStringSubmatch(ret.ErrText, -1) {
+			id, _ := strconv.ParseUint(m[1], 10, 32)
+			for s, sid := range r.IDs[ci.Mgr] {
+				if uint64(sid) == id {
+					counts[s]++
+				}
+			}
+		}
+		for _, s := range ci.Targets {
+			want := 0
+			if isVictim[s] {
+				want = 1
+			}
+			if counts[s] != want {
+				return vt.Verdict{OK: false, Key: "C07/program/error-count", History: r.Events, Classes: classes,
+					Msg: fmt.Sprintf("call %d (%s): server %d (victim=%v) is listed %d times in the error, want %d: %s", ci.Idx, ci.Kind, s, isVictim[s], counts[s], want, ret.ErrText)}
+			}
+		}
+		if e, rr, ok := qeng.ParseCounts(ret.ErrText); ok && e+rr != len(ci.Targets) {
+			return vt.Verdict{OK: false, Key: "C07/program/incomplete-counts", History: r.Events, Classes: classes,
+				Msg: fmt.Sprintf("call %d (%s): errors (%d) + replies (%d) != targeted nodes (%d)", ci.Idx, ci.Kind, e, rr, len(ci.Targets))}
+		}
+	}
+	if inflightAtStop > 0 {
+		classes = append(classes, "calls-waiting-when-servers-stopped")
+	}
+	res := vt.Pass(inflightAtStop > 0, classes...)
+	res.Inconclusive = r.Late
+	return res
+}
+
+func run(c Case) vt.Verdict {
+	if c.P != nil {
+		return runProgram(c)
+	}
+	q := *c.Q
+	r := qeng.Run(q)
+	if r.SetupErr != "" {
+		return vt.Verdict{OK: true, Inconclusive: true, Msg: r.SetupErr, Classes: []string{"setup-error"}}
+	}
+	classes, _ := qeng.Classes(q, r)
+	v, extra, nontrivial := qeng.CheckC07(q, r)
 	classes = append(classes, extra...)
 	if v != nil {
 		return vt.Verdict{OK: false, Key: v.Key, Msg: v.Msg, History: r.Events, Classes: classes}
@@ -34,9 +259,9 @@ func run(c qeng.Case) vt.Verdict {
 }
 
 func TestProp(t *testing.T) {
-	vt.Main(t, vt.Spec[qeng.Case]{
-		ID:           "C07",
-		Rule:         "fault enumeration by generation: 1-7 servers, a failing subset of any size, per failing node a kind from {never started, stopped at a generated position of the script (before the request is answered, while its handler is held, after its reply), handler status error with any of the 16 non-OK codes and a generated message, non-status Go error, reply together with an error}, thresholds 1..n+1 and value-dependent scripts, sync and async; oracle: success when the healthy replies satisfy the script, completion (never left waiting) once every node answered or failed, exactly one 'node <id>:' line per failing node and none for healthy ones, handler code and message intact, connection failures of unavailable type, no reply entry for a failing node; non-trivial = at least one failing node and (a stop after the handler was entered, or two different failure kinds, or a handler error)",
+	vt.Main(t, vt.Spec[Case]{
+		ID: "C07",
+		Rule: "fault enumeration by generation, two case shapes. (Q, 3 of 4) one scripted call on 1-7 servers with a failing subset of any size, per failing node a kind from {never started, stopped before the call, stopped at a generated position of the script (before the request is answered, while its handler is held, after its reply), handler status error with any of the 16 non-OK codes and a generated message, non-status Go error, reply together with an error}, thresholds 1..n+1 and value-dependent scripts, sync and async; oracle: success when the healthy replies satisfy the script, completion once every node answered or failed, exactly one 'node <id>:' line per failing node and none for healthy ones, handler code and message intact, connection failures of unavailable type, no reply entry for a failing node. (P, 1 of 4) a concurrent program: 2-5 threads issue 3-14 two-way calls of 12 kinds with contexts that never end on overlapping configurations, every call needs all its nodes, per-node functions spend 0.1-2 ms per node (so calls hand over their requests in another order than they drew their message ids), handlers on a generated set of victim servers are held, then all victims are stopped while calls wait; oracle: every call is completed (none left waiting), no call succeeds without its victims, every Incomplete error lists each victim exactly once and no healthy node. Non-trivial = (Q) at least one failing node and (a stop after the handler was entered, or two different failure kinds, or a handler error); (P) at least one call was waiting when the servers were stopped (measured)",
 		Gen:          gen,
 		Run:          run,
 		TrackCurrent: true,
